@@ -30,7 +30,7 @@ Fails(sc, f) ==
   \/ f.cls = "verifyfail" /\ sc.verify /\ sc.sortreq
   \/ f.cls = "readonly" /\ sc.priv /\ sc.mode = "write"
 Differs(sc, f) ==
-  \/ f.cls \in {"unformatted", "unformatted_multi", "readonly"}
+  \/ f.cls \in {"unformatted", "unformatted_multi", "readonly", "crlf"}   \* "crlf": only the line terminators differ
   \/ f.cls = "unreadable" /\ ~sc.priv
   \/ f.cls = "verifyfail" /\ sc.sortreq
 
